@@ -18,6 +18,7 @@ IR (hashable tuples):
  ("sub", base, idx) ("slice", lo, hi, step)
  ("copy", L) ("removeone", L, x) ("appended", L, x)
  ("phi", cond, a, b) ("carried", name, loop) ("acc", name) ("unknown", text)
+ ("closure", name, uid)   a nested one-expression def / lambda as a value (applied when called, see Flow._apply)
 """
 from __future__ import annotations
 
@@ -341,7 +342,49 @@ class Flow:
         return ("slice", self.ev(n.lower), self.ev(n.upper), self.ev(n.step))
 
     def e_Lambda(self, n):
-        return ("unknown", "lambda")
+        return self._closure("<lambda>", n.args, n.body, n) or ("unknown", "lambda")
+
+    # ---- local functions as values ------------------------------------------------------------------------------------------
+    # A nested `def f(p): return e` / `lambda p: e` is the value ("closure", name, uid); calling it -- also through a phi of
+    # several such definitions, one per arm of an if/elif chain -- evaluates e with the parameters bound to the arguments.  Free
+    # variables are looked up at the call, as Python does.
+    def _closure(self, name, args, body, node):
+        if args.vararg or args.kwarg or args.posonlyargs or args.kwonlyargs:
+            return None
+        if not hasattr(self, "_closures"):
+            self._closures = {}
+        uid = getattr(node, "lineno", 0) * 1000 + getattr(node, "col_offset", 0)     # the same definition is the same value
+        self._closures[uid] = ([a.arg for a in args.args], list(args.defaults), body)
+        return ("closure", name, uid)
+
+    def _apply(self, fv, args, kws, depth=0):
+        """value of calling the function value fv, or None when fv is not a (phi of) local closure(s)"""
+        if depth > 6:
+            return None
+        if fv[0] in ("phi", "ifexp") and len(fv) == 4:
+            a, b = self._apply(fv[2], args, kws, depth + 1), self._apply(fv[3], args, kws, depth + 1)
+            return None if a is None or b is None else (fv[0], fv[1], a, b)
+        if fv[0] != "closure" or fv[2] not in getattr(self, "_closures", {}) or getattr(self, "_applying", 0) > 3:
+            return None
+        params, defaults, body = self._closures[fv[2]]
+        if len(args) > len(params) or any(k not in params for k, _ in kws):
+            return None
+        given = dict(zip(params, args))
+        given.update(dict(kws))
+        for p_, d in zip(params[len(params) - len(defaults):], defaults):
+            if p_ not in given:
+                given[p_] = self.ev(d)
+        if set(given) != set(params):
+            return None
+        saved = self.env
+        self.env = dict(saved)
+        self.env.update(given)
+        self._applying = getattr(self, "_applying", 0) + 1
+        try:
+            return self.ev(body)
+        finally:
+            self._applying -= 1
+            self.env = saved
 
     def e_NamedExpr(self, n):
         v = self.ev(n.value)
@@ -418,6 +461,10 @@ class Flow:
                     out = ("phi", ("cmp", ("Eq",), (key, k)), inl, out)
                 if ok:
                     return out
+        if isinstance(f, ast.Name) and f.id in self.env and all(k != "**" for k, _ in kws) and not any(a[0] == "star" for a in args):
+            r = self._apply(self.env[f.id], args, kws)
+            if r is not None:
+                return r
         if isinstance(f, ast.Name) and f.id in TRANSPARENT and len(args) == 1 and not kws and f.id not in self.env:
             if f.id == "tqdm" or args[0][0] in ("comp", "list", "acc"):
                 return args[0]
@@ -838,7 +885,11 @@ class Flow:
         self.block(s.finalbody)
 
     def s_FunctionDef(self, s):
-        self.env[s.name] = ("localfunc", s.name)
+        body = [b for b in s.body if not (isinstance(b, ast.Expr) and isinstance(b.value, ast.Constant))]
+        c = None
+        if not s.decorator_list and len(body) == 1 and isinstance(body[0], ast.Return) and body[0].value is not None:
+            c = self._closure(s.name, s.args, body[0].value, s)
+        self.env[s.name] = c or ("localfunc", s.name)
 
     def s_ClassDef(self, s):
         self.env[s.name] = ("localclass", s.name)
@@ -977,6 +1028,8 @@ def show(v, depth=0) -> str:
             return f"carried:{v[1]}"
         if k == "acc":
             return f"acc:{v[1]}"
+        if k == "closure":
+            return f"<function {v[1]}>"
     except Exception:
         pass
     return str(v)[:120]
@@ -1076,6 +1129,15 @@ def simp(v):
                     continue
             parts.append(p)
         return flatten_fstr(("fstr", tuple(parts)))
+    if k == "comp" and len(v[3]) == 1 and v[3][0][0] is not None:
+        # loop unswitching: a filter `a if c else b` whose test does not depend on the comprehension's variables selects one of
+        # two comprehensions:  [e for x in L if (a if c else b)]  ==  [e for x in L if a] if c else [e for x in L if b]
+        tg, it, ifs = v[3][0]
+        bound = {x for x in walk(tg) if isinstance(x, tuple) and x and x[0] == "bv"}
+        for i_, c_ in enumerate(ifs):
+            if c_[0] in ("phi", "ifexp") and len(c_) == 4 and not any(x in bound for x in walk(c_[1])):
+                arm = lambda w: simp(("comp", v[1], v[2], ((tg, it, tuple(ifs[:i_]) + (w,) + tuple(ifs[i_ + 1:])),)))
+                return ("phi", c_[1], arm(c_[2]), arm(c_[3]))
     if k == "sub":
         base, idx = v[1], v[2]
         if base[0] in ("list", "tuple") and idx[0] == "const" and isinstance(idx[1], int) \
